@@ -397,3 +397,191 @@ fn c04_unknown_types_rejected() {
     assert!(Message::deserialize(&buf[..len]).is_err(), "C04: reserved message type accepted");
     kani::cover!(len == 48 && t == 0xf, "full-length frame of reserved type");
 }
+
+// ================================================================================================
+// Recording replacement for `Message::serialize` (used via #[kani::stub] by the emitting-handler
+// harnesses in harness/port).
+//
+// Why: CBMC cannot carry byte-level writes into `Port::packet_buffer` once anything reads the bytes
+// back (the buffer is a field of a struct with enum / union fields; measured: a fully concrete
+// `send_sync` + one byte read > 43 GB). So the handler harnesses decide "which typed Message the
+// handler hands to `serialize`, with which buffer", and the `c04_encode_*` harnesses below decide
+// "`serialize` turns any typed Message into the Clause 13 bytes" on a local buffer. `serialize` is a
+// pure function of (message, buffer length), so the two compose.
+// ================================================================================================
+pub(crate) static mut SER_COUNT: u32 = 0;
+pub(crate) static mut SER_HEADER: Option<Header> = None;
+pub(crate) static mut SER_BODY: Option<MessageBody> = None;
+pub(crate) static mut SER_SUFFIX_LEN: usize = 0;
+pub(crate) static mut SER_BUF_ADDR: usize = 0;
+pub(crate) static mut SER_BUF_LEN: usize = 0;
+/// the first two TLVs of the suffix: (type, value length, first 24 value octets), and the TLV count (<= 3 counted)
+pub(crate) static mut SER_TLV: [(u16, usize, [u8; 24]); 2] = [(0, 0, [0; 24]); 2];
+pub(crate) static mut SER_TLV_COUNT: usize = 0;
+
+pub(crate) fn serialize_rec<'a>(m: &Message<'a>, buffer: &mut [u8]) -> Result<usize, WireFormatError> where 'a: 'a {
+    let n = m.wire_size();
+    // the real function panics (split_at_mut / unwrap) exactly when the buffer is shorter than the message
+    assert!(buffer.len() >= n, "Message::serialize: buffer shorter than the message");
+    unsafe {
+        SER_COUNT += 1;
+        SER_HEADER = Some(m.header);
+        SER_BODY = Some(m.body.clone());
+        SER_SUFFIX_LEN = m.suffix.wire_size();
+        SER_BUF_ADDR = buffer.as_ptr() as usize;
+        SER_BUF_LEN = buffer.len();
+        let mut it = m.suffix.tlv();
+        let mut k = 0;
+        SER_TLV_COUNT = 0;
+        while k < 3 {
+            if let Some(t) = it.next() {
+                SER_TLV_COUNT += 1;
+                if k < 2 {
+                    let l = t.value.len();
+                    SER_TLV[k].0 = t.tlv_type.to_primitive();
+                    SER_TLV[k].1 = l;
+                    let mut i = 0;
+                    while i < 3 {
+                        let mut j = 0;
+                        while j < 8 {
+                            let x = i * 8 + j;
+                            if x < l { SER_TLV[k].2[x] = t.value[x]; }
+                            j += 1;
+                        }
+                        i += 1;
+                    }
+                }
+            }
+            k += 1;
+        }
+    }
+    Ok(n)
+}
+
+pub(crate) fn ser_count() -> u32 { unsafe { SER_COUNT } }
+pub(crate) fn ser_header() -> Option<Header> { unsafe { SER_HEADER } }
+pub(crate) fn ser_body() -> Option<MessageBody> { unsafe { SER_BODY.clone() } }
+pub(crate) fn ser_suffix_len() -> usize { unsafe { SER_SUFFIX_LEN } }
+pub(crate) fn ser_buf() -> (usize, usize) { unsafe { (SER_BUF_ADDR, SER_BUF_LEN) } }
+pub(crate) fn ser_tlv(k: usize) -> (u16, usize, [u8; 24]) { unsafe { SER_TLV[k] } }
+pub(crate) fn ser_tlv_count() -> usize { unsafe { SER_TLV_COUNT } }
+
+// ================================================================================================
+// Encode direction: any typed message -> Clause 13 bytes (reference reads them back).
+// ================================================================================================
+use crate::verif_root::gen::*;
+
+fn any_body(t: u8, header: Header) -> MessageBody {
+    match t {
+        T_SYNC => MessageBody::Sync(SyncMessage { origin_timestamp: any_wire_timestamp() }),
+        T_DELAY_REQ => MessageBody::DelayReq(DelayReqMessage { origin_timestamp: any_wire_timestamp() }),
+        T_FOLLOW_UP => MessageBody::FollowUp(FollowUpMessage { precise_origin_timestamp: any_wire_timestamp() }),
+        T_PDELAY_REQ => MessageBody::PDelayReq(PDelayReqMessage { origin_timestamp: any_wire_timestamp() }),
+        T_DELAY_RESP => MessageBody::DelayResp(DelayRespMessage { receive_timestamp: any_wire_timestamp(), requesting_port_identity: any_port_identity() }),
+        T_PDELAY_RESP => MessageBody::PDelayResp(PDelayRespMessage { request_receive_timestamp: any_wire_timestamp(), requesting_port_identity: any_port_identity() }),
+        T_PDELAY_RESP_FOLLOW_UP => MessageBody::PDelayRespFollowUp(PDelayRespFollowUpMessage { response_origin_timestamp: any_wire_timestamp(), requesting_port_identity: any_port_identity() }),
+        _ => MessageBody::Announce(any_announce_with_header(header)),
+    }
+}
+
+fn check_encode<const N: usize>(t: u8) {
+    let mut header = any_header();
+    header.version = PtpVersion::new(2, kani::any::<u8>() & 0x0f).unwrap();
+    let m = Message { header, body: any_body(t, header), suffix: TlvSet::default() };
+    let mut out: [u8; N] = kani::any(); // dirty buffer
+    let n = m.serialize(&mut out).unwrap();
+    let blen = ref_body_len(t).unwrap();
+    assert!(n == HEADER_LEN + blen && n == m.wire_size(), "C04: encoded length");
+    let r = ref_header(&out);
+    assert!(r.message_type == t && r.message_length as usize == n && r.control == ref_control(t), "C04: type / length / controlField");
+    assert!(header_matches(&m.header, &r), "C04: header field encoded at the wrong offset/width/byte order");
+    assert!(out[6] & !F0_DEFINED == 0 && out[7] & !F1_DEFINED == 0 && out[16] == 0 && out[17] == 0 && out[18] == 0 && out[19] == 0,
+        "C04: reserved header bits / messageTypeSpecific must be written as zero");
+    assert!(body_matches(t, &m, &out), "C04: body field encoded at the wrong offset/width/byte order");
+    // every octet of the frame is determined by the message (none of the dirty buffer leaks into defined fields):
+    // encoding the same message over a different dirty buffer gives the same octets wherever Clause 13 defines them
+    let mut out2: [u8; N] = kani::any();
+    let _ = m.serialize(&mut out2).unwrap();
+    assert!(reencoding_agrees::<N>(t, &out, &out2, n, blen), "C04: stale buffer contents leak into the frame");
+    kani::cover!(true, "encoded");
+}
+
+// @harness c04_encode_sync
+// @props C04 C10
+// @tier quick
+// @timeout 600
+// @functions Message::serialize, Header::serialize_header, SyncMessage::serialize_content, WireTimestamp::serialize, TimeInterval::serialize, PortIdentity::serialize
+// @bounds arbitrary typed Sync (every header field, flags, correction, identity, sequence id, log interval, minor version; origin timestamp seconds < 2^48) into a dirty 44-octet buffer
+#[kani::proof]
+#[kani::unwind(14)]
+fn c04_encode_sync() { check_encode::<44>(T_SYNC) }
+
+// @harness c04_encode_delay_req
+// @props C04 C10
+// @tier quick
+// @timeout 600
+// @functions Message::serialize, DelayReqMessage::serialize_content
+// @bounds as c04_encode_sync
+#[kani::proof]
+#[kani::unwind(14)]
+fn c04_encode_delay_req() { check_encode::<44>(T_DELAY_REQ) }
+
+// @harness c04_encode_follow_up
+// @props C04 C10
+// @tier quick
+// @timeout 600
+// @functions Message::serialize, FollowUpMessage::serialize_content
+// @bounds as c04_encode_sync
+#[kani::proof]
+#[kani::unwind(14)]
+fn c04_encode_follow_up() { check_encode::<44>(T_FOLLOW_UP) }
+
+// @harness c04_encode_delay_resp
+// @props C04 C10
+// @tier quick
+// @timeout 600
+// @functions Message::serialize, DelayRespMessage::serialize_content
+// @bounds arbitrary typed Delay_Resp into a dirty 54-octet buffer
+#[kani::proof]
+#[kani::unwind(14)]
+fn c04_encode_delay_resp() { check_encode::<54>(T_DELAY_RESP) }
+
+// @harness c04_encode_pdelay_req
+// @props C04 C10 C14
+// @tier quick
+// @timeout 600
+// @functions Message::serialize, PDelayReqMessage::serialize_content
+// @bounds arbitrary typed Pdelay_Req into a dirty 54-octet buffer
+#[kani::proof]
+#[kani::unwind(14)]
+fn c04_encode_pdelay_req() { check_encode::<54>(T_PDELAY_REQ) }
+
+// @harness c04_encode_pdelay_resp
+// @props C04 C10
+// @tier quick
+// @timeout 600
+// @functions Message::serialize, PDelayRespMessage::serialize_content
+// @bounds arbitrary typed Pdelay_Resp into a dirty 54-octet buffer
+#[kani::proof]
+#[kani::unwind(14)]
+fn c04_encode_pdelay_resp() { check_encode::<54>(T_PDELAY_RESP) }
+
+// @harness c04_encode_pdelay_resp_follow_up
+// @props C04 C10
+// @tier quick
+// @timeout 600
+// @functions Message::serialize, PDelayRespFollowUpMessage::serialize_content
+// @bounds arbitrary typed Pdelay_Resp_Follow_Up into a dirty 54-octet buffer
+#[kani::proof]
+#[kani::unwind(14)]
+fn c04_encode_pdelay_resp_follow_up() { check_encode::<54>(T_PDELAY_RESP_FOLLOW_UP) }
+
+// @harness c04_encode_announce
+// @props C04 C11
+// @tier quick
+// @timeout 900
+// @functions Message::serialize, AnnounceMessage::serialize_content, ClockQuality::serialize, ClockAccuracy::to_primitive, TimeSource::to_primitive
+// @bounds arbitrary typed Announce (all grandmaster attributes, utc offset, stepsRemoved, time source) into a dirty 64-octet buffer
+#[kani::proof]
+#[kani::unwind(14)]
+fn c04_encode_announce() { check_encode::<64>(T_ANNOUNCE) }
